@@ -28,6 +28,12 @@ def operator_tokens(ctx: Ctx):
             if alts and all(len(a.syms) == 1 and a.syms[0] in g.terminals for a in alts):
                 ops.update(a.syms[0] for a in alts)
     ops.update(g.precedence)
+    # the boolean connectives, whether or not a precedence table lists them (a stratified grammar has none)
+    try:
+        from .gramrules import token_roles
+        ops.update(token_roles(ctx).values())
+    except AnalysisError:
+        pass
     if not ops:
         raise AnalysisError("no operator tokens found in the grammar (comparison non-terminal / precedence)")
     return ops
